@@ -230,6 +230,19 @@ def _block_of(stmt):
     return None
 
 
+def _consumed_elsewhere(model, g, key, wcls):
+    for (cls_e, args_e, _site) in writer_selections(model, g):
+        if cls_e is None or not isinstance(args_e, ast.Dict):
+            continue
+        r = model.resolve_expr(g.module, cls_e)
+        if not r or r[0] != 'class' or r[1] is wcls:
+            continue
+        keys = {const_str(k) for k in args_e.keys if k is not None}
+        if key in keys and key in writer_arg_keys(model, r[1]):
+            return True
+    return False
+
+
 def rule_wiring(ctx, res, subname, check_writer=True, only_options=None):
     """R-C01-wiring for one subcommand."""
     model = ctx.model
@@ -324,6 +337,15 @@ def rule_wiring(ctx, res, subname, check_writer=True, only_options=None):
             an = 'args' if 'args' in g.params() else (
                 g.params()[0] if g.params() else 'args')
             for k in sorted(produced):
+                if k not in consumed and _consumed_elsewhere(
+                        model, g, k, wcls):
+                    res.info('R-C01-wiring', g.qual,
+                             '{}: key {!r} ignored by {}'.format(
+                                 subname, k, wcls.name),
+                             'another writer selection of this function '
+                             'hands the key to a writer that reads it; this '
+                             'writer has no use for it', g.module.loc(site))
+                    continue
                 res.check(k in consumed, 'R-C01-wiring', g.qual,
                           '{}: key {!r} consumed by {}'.format(
                               subname, k, wcls.name),
